@@ -231,6 +231,49 @@ Theorem C13_manager_resumes : forall s g,
   resumes s g = true <-> m_sm s = true /\ m_held s = true /\ g = true.
 Proof. exact manager_resumes. Qed.
 
+(* ---- resumed when possible: a reconnection attempt cut while the answer to <resume/> is awaited ---- *)
+(* The client holds a state, the stream offers stream management, the <resume/> request goes
+   out and the connection ends before any answer (or in the middle of it: nothing decodable
+   arrived): no bind request follows on that stream, the attempt is a transient failure the
+   retry loop waits out, and the state is exactly the one held before -- the server has
+   neither confirmed nor refused it. *)
+Theorem C13_cut_awaiting_resume_answer_keeps_state : forall cfg c p f s sn,
+  f_sm f = true -> has_id p = true -> conn_lost s = true ->
+  let x := step_resume cfg c p f s sn in
+  reqs (outs x) = [RResume (p_sm_id p) (p_inbound p)] /\ pst x = p /\
+  resume_step_attempt p x = cut_awaiting_resume_answer /\
+  is_noise (EAttempt (resume_step_attempt p x)) = true.
+Proof. exact cut_awaiting_answer_keeps_state. Qed.
+(* so the attempt that follows presents the same id and count again, and when the server still
+   knows the session it is the resumed one: no bind request *)
+Theorem C13_resumed_after_cut_resume_answer : forall cfg c p f s sn rest sn',
+  f_sm f = true -> has_id p = true -> conn_lost s = true ->
+  let x := step_resume cfg c p f s sn in
+  let y := step_resume cfg c (pst x) f (SResumed (p_sm_id p) :: rest) sn' in
+  res y = Ok /\ resumed_of (outs y) = true /\ pst y = p /\
+  reqs (outs y) = [RResume (p_sm_id p) (p_inbound p)].
+Proof. exact resumed_after_cut_answer. Qed.
+(* the manager: such cuts, anywhere among the failed attempts of an outage, change nothing
+   about the state the successful attempt finds *)
+Theorem C13_cut_awaiting_resume_answer_transparent : forall sm held a b,
+  held_after sm held (a ++ EAttempt cut_awaiting_resume_answer :: b) = held_after sm held (a ++ b).
+Proof. exact cut_awaiting_answer_transparent. Qed.
+Theorem C13_resumed_after_cut_round : forall sm es0 t g,
+  let s := m_run repaired (m_init sm) es0 in
+  m_phase s = MUp -> is_loss t = true ->
+  let s' := m_run repaired s [ETerm t; EAttempt cut_awaiting_resume_answer; EAttempt (AOk g)] in
+  m_phase s' = MUp /\ m_sessions s' = S (m_sessions s) /\ m_post s' = S (m_post s) /\
+  m_resumed s' = (if m_sm s && m_held s && g then S (m_resumed s) else m_resumed s).
+Proof. exact resumed_after_cut_round. Qed.
+(* the contrast that makes the distinction one: once the server has REFUSED the state, a cut
+   right afterwards leaves nothing to resume -- one new session all the same, freshly bound *)
+Theorem C13_refused_then_cut_binds_afresh : forall sm es0 t g,
+  let s := m_run repaired (m_init sm) es0 in
+  m_phase s = MUp -> is_loss t = true ->
+  let s' := m_run repaired s [ETerm t; EAttempt cut_after_resume_refused; EAttempt (AOk g)] in
+  m_sessions s' = S (m_sessions s) /\ m_resumed s' = m_resumed s.
+Proof. exact refused_then_cut_loses_state. Qed.
+
 (* the hypotheses are satisfiable by non-trivial values *)
 Example C13_example :
   let s := m_run repaired (m_init true)
@@ -268,3 +311,8 @@ Print Assumptions C13_rejected_credentials_permanent.
 Print Assumptions C13_resumed_when_possible.
 Print Assumptions C13_fresh_otherwise.
 Print Assumptions C13_manager_resumes.
+Print Assumptions C13_cut_awaiting_resume_answer_keeps_state.
+Print Assumptions C13_resumed_after_cut_resume_answer.
+Print Assumptions C13_cut_awaiting_resume_answer_transparent.
+Print Assumptions C13_resumed_after_cut_round.
+Print Assumptions C13_refused_then_cut_binds_afresh.
